@@ -450,6 +450,12 @@ def run(ctx):
             r6.check(w0 is None, "copy-mode-tested-before-any-query", "checkin_cleanup sends a query only where in_copy_mode() was false",
                      "checkin_cleanup can send its ROLLBACK / RESET while the connection is in COPY mode: the server does not execute the text, it answers ErrorResponse (which clears in_copy_mode) and ReadyForQuery, "
                      "the dirty marks are dropped and the connection is reused with the previous client's settings (or inside its failed transaction)", "pgcat::server::Server::checkin_cleanup", w0 and cc.describe_path(w0))
+            # the release gate is cleared only where the connection was seen not to be in COPY mode
+            gate_clear = [blk for blk, i, st in cc.assigns() if proj_fields(st["lhs"])[-1:] == ["needs_checkin_cleanup"] and st["rv"]["k"] == "use" and const_int(st["rv"].get("op")) == 0]
+            fcopy = set(Fc) | set(field_bool_edges(cc, "in_copy_mode", csw)[1])
+            w1 = cc.uncrossed_path([0], gate_clear, edges=fcopy) if gate_clear else None
+            r6.check(bool(gate_clear) and w1 is None, "gate-cleared-only-outside-copy-mode", "needs_checkin_cleanup is cleared only after in_copy_mode() was seen false",
+                     "checkin_cleanup can clear the release gate without having looked at COPY mode (an early return): a connection left in the COPY sub-protocol goes back to the pool as healthy", "pgcat::server::Server::checkin_cleanup", w1 and cc.describe_path(w1))
             r6.check(wit is None, "copy-mode=>bad", "in_copy_mode()==true at check-in leads to mark_bad / Err",
                      "checkin_cleanup returns Ok with the connection still in COPY mode (only a warning is logged): the next client inherits a connection that expects CopyData",
                      "pgcat::server::Server::checkin_cleanup", wit and cc.describe_path(wit))
